@@ -20,6 +20,8 @@ class BaseCtx(object):
         self.params = params or {}
         self.witness_tags = set()
         self.notes = {}
+        # choices pinned by the job (splits one exploration into parallel jobs): {choice name: value}
+        self.fixed_choices = dict(self.params.get('fixed_choices') or {})
 
     def witness(self, tag):
         """Reachability witness: a feasible path reached this point."""
@@ -51,6 +53,10 @@ class ExploreCtx(BaseCtx):
 
     def choice(self, name, n):
         """A concrete index 0..n-1, chosen by forking (every choice explored)."""
+        if name in self.fixed_choices:
+            if not 0 <= self.fixed_choices[name] < n:
+                sc.prune()
+            return self.fixed_choices[name]
         v = sc.fresh_int('v_' + name, 0, n - 1)
         self.vars.append((name, 'int', v))
         with NoTracing():
@@ -283,6 +289,10 @@ class ReplayCtx(BaseCtx):
         return bool(self.record['inputs'][name])
 
     def choice(self, name, n):
+        if name in self.fixed_choices:
+            if not 0 <= self.fixed_choices[name] < n:
+                raise ReplayOutOfBound()
+            return self.fixed_choices[name]
         return self.record['inputs'][name]
 
     def concrete(self, x, lo, hi):
